@@ -369,6 +369,15 @@ func child(batch int, seed int64, tier, outDir string) {
 			inp = inp[:2048]
 		}
 		wit := map[string]any{"case": id, "input_prefix_base64": inp, "error": fmt.Sprint(err)}
+		say(err)
+		if out != nil {
+			say(out.Error)
+			for _, vr := range out.VerificationResults {
+				if vr != nil {
+					say(vr.Error)
+				}
+			}
+		}
 		if err == nil {
 			res.Events["pair:no-error"]++
 			if out == nil {
@@ -684,6 +693,7 @@ func child(batch int, seed int64, tier, outDir string) {
 				var bd trustpolicy.BlobDocument
 				if json.Unmarshal(in, &od) == nil {
 					verr := od.Validate()
+					say(verr)
 					for _, ref := range []string{"r.io/a@sha256:" + strings.Repeat("a", 64), "", "@", "*", "r.io/a", "\x00@\x00"} {
 						od.GetApplicableTrustPolicy(ref)
 					}
@@ -701,8 +711,8 @@ func child(batch int, seed int64, tier, outDir string) {
 				if json.Unmarshal(in, &bd) == nil {
 					bd.Validate()
 					bd.GetGlobalTrustPolicy()
-					bd.GetApplicableTrustPolicy("p")
-					bd.GetApplicableTrustPolicy("")
+					e1(bd.GetApplicableTrustPolicy("p"))
+					e1(bd.GetApplicableTrustPolicy(""))
 					if v, err := verifier.NewVerifierWithOptions(ts, verifier.VerifierOptions{BlobTrustPolicy: &bd}); err == nil {
 						v.VerifyBlob(ctx, func(alg digest.Algorithm) (ocispec.Descriptor, error) { return blobDesc, nil }, valid[lib.MediaJWS+"|blob"], notation.BlobVerifierVerifyOptions{SignatureMediaType: lib.MediaJWS})
 					}
@@ -772,6 +782,11 @@ func child(batch int, seed int64, tier, outDir string) {
 			os.RemoveAll(layout)
 			manifest := []byte(fmt.Sprintf(`{"schemaVersion":2,"mediaType":"application/vnd.oci.image.manifest.v1+json","config":{"mediaType":"application/vnd.cncf.notary.signature","digest":"sha256:44136fa355b3678a1146ad16f7e8649e94fb4fc21fe77e8310c060f61caaff8a","size":2},"layers":[{"mediaType":"application/jose+json","digest":"%s","size":%d}],"subject":{"mediaType":"application/vnd.oci.image.manifest.v1+json","digest":"%s","size":%d},"annotations":{"a":"b"}}`, digest.FromBytes(blob), len(blob), desc.Digest, desc.Size))
 			in := mutateJSON(rng, manifest)
+			if rng.Intn(4) == 0 {
+				// a well-formed signature manifest whose layer DECLARES an absurd size (the blob itself is tiny)
+				huge := []string{"1125899906842624", "9223372036854775807", "-1", "33554433", "4611686018427387904", "18446744073709551615", "1e30"}[rng.Intn(7)]
+				in = bytes.Replace(manifest, []byte(fmt.Sprintf(`"size":%d}],"subject"`, len(blob))), []byte(`"size":`+huge+`}],"subject"`), 1)
+			}
 			run("registry over hostile layout", id, in, func() {
 				os.MkdirAll(filepath.Join(layout, "blobs", "sha256"), 0o755)
 				os.WriteFile(filepath.Join(layout, "oci-layout"), []byte(`{"imageLayoutVersion":"1.0.0"}`), 0o644)
@@ -794,20 +809,20 @@ func child(batch int, seed int64, tier, outDir string) {
 				if err != nil {
 					return
 				}
-				repo.Resolve(ctx, "v1")
-				repo.Resolve(ctx, md.String())
+				e1(repo.Resolve(ctx, "v1"))
+				e1(repo.Resolve(ctx, md.String()))
 				mdDesc := ocispec.Descriptor{MediaType: ocispec.MediaTypeImageManifest, Digest: md, Size: int64(len(in))}
-				repo.FetchSignatureBlob(ctx, mdDesc)
+				e2(repo.FetchSignatureBlob(ctx, mdDesc))
 				mdDesc.MediaType = "application/vnd.oci.artifact.manifest.v1+json"
-				repo.FetchSignatureBlob(ctx, mdDesc)
+				e2(repo.FetchSignatureBlob(ctx, mdDesc))
 				repo.ListSignatures(ctx, desc, func(ds []ocispec.Descriptor) error {
 					for _, d := range ds {
-						repo.FetchSignatureBlob(ctx, d)
+						e2(repo.FetchSignatureBlob(ctx, d))
 					}
 					return nil
 				})
 				v := mkVerifier("both", "strict", nil)
-				notation.Verify(ctx, v, repo, notation.VerifyOptions{ArtifactReference: "r.io/a@" + desc.Digest.String(), MaxSignatureAttempts: 3})
+				e2(notation.Verify(ctx, v, repo, notation.VerifyOptions{ArtifactReference: "r.io/a@" + desc.Digest.String(), MaxSignatureAttempts: 3}))
 			})
 		case ep == 14: // CRL cache and trust store files
 			in := rng.Bytes(rng.Intn(600))
@@ -820,16 +835,16 @@ func child(batch int, seed int64, tier, outDir string) {
 				if err != nil {
 					return
 				}
-				c.Set(ctx, "u", &corecrl.Bundle{})
-				c.Set(ctx, "u", nil)
+				say(c.Set(ctx, "u", &corecrl.Bundle{}))
+				say(c.Set(ctx, "u", nil))
 				os.WriteFile(filepath.Join(cdir, "0bfe935e70c321c7ca3afc75ce0d0ca2f98b5422e008bb31c00c6d7f1f1c0ad6"), in, 0o644)
-				c.Get(ctx, "u")
+				e1(c.Get(ctx, "u"))
 				tdir := filepath.Join(outDir, fmt.Sprintf("ts-%d", batch))
 				os.MkdirAll(filepath.Join(tdir, "truststore", "x509", "ca", "s"), 0o755)
 				os.WriteFile(filepath.Join(tdir, "truststore", "x509", "ca", "s", "c.crt"), in, 0o644)
-				truststore.NewX509TrustStore(dir.NewSysFS(tdir)).GetCertificates(ctx, "ca", "s")
-				truststore.ValidateCertificates(nil)
-				truststore.ValidateCertificates([]*x509.Certificate{})
+				e1(truststore.NewX509TrustStore(dir.NewSysFS(tdir)).GetCertificates(ctx, "ca", "s"))
+				say(truststore.ValidateCertificates(nil))
+				say(truststore.ValidateCertificates([]*x509.Certificate{}))
 			})
 		case ep == 15: // proto codecs
 			s := string(rng.Bytes(rng.Intn(12)))
@@ -864,8 +879,8 @@ func child(batch int, seed int64, tier, outDir string) {
 				if rng.Bool() {
 					d.Annotations = map[string]string{"x": "y"}
 				}
-				ps.Sign(ctx, d, notation.SignerSignOptions{SignatureMediaType: f})
-				ps.SignBlob(ctx, func(alg digest.Algorithm) (ocispec.Descriptor, error) { return blobDesc, nil }, notation.SignerSignOptions{SignatureMediaType: f})
+				e2(ps.Sign(ctx, d, notation.SignerSignOptions{SignatureMediaType: f}))
+				e2(ps.SignBlob(ctx, func(alg digest.Algorithm) (ocispec.Descriptor, error) { return blobDesc, nil }, notation.SignerSignOptions{SignatureMediaType: f}))
 				ps.PluginAnnotations()
 			})
 		case ep == 18 && i%3 == 2: // signer construction from hostile key / certificate files
@@ -977,13 +992,15 @@ func child(batch int, seed int64, tier, outDir string) {
 				if err != nil {
 					return
 				}
-				if md, err := p.GetMetadata(ctx, &pf.GetMetadataRequest{}); err == nil && md != nil {
+				md, merr := p.GetMetadata(ctx, &pf.GetMetadataRequest{})
+				say(merr)
+				if merr == nil && md != nil {
 					md.HasCapability(pf.CapabilitySignatureGenerator)
 				}
-				p.DescribeKey(ctx, &pf.DescribeKeyRequest{KeyID: "k"})
-				p.GenerateSignature(ctx, &pf.GenerateSignatureRequest{KeyID: "k"})
-				p.GenerateEnvelope(ctx, &pf.GenerateEnvelopeRequest{KeyID: "k"})
-				p.VerifySignature(ctx, &pf.VerifySignatureRequest{})
+				e1(p.DescribeKey(ctx, &pf.DescribeKeyRequest{KeyID: "k"}))
+				e1(p.GenerateSignature(ctx, &pf.GenerateSignatureRequest{KeyID: "k"}))
+				e1(p.GenerateEnvelope(ctx, &pf.GenerateEnvelopeRequest{KeyID: "k"}))
+				e1(p.VerifySignature(ctx, &pf.VerifySignatureRequest{}))
 			})
 		default: // top-level signing API with unusual options
 			run("notation.Sign*", id, nil, func() {
@@ -1008,6 +1025,20 @@ func child(batch int, seed int64, tier, outDir string) {
 	res.Distinct = res.Cases
 	flush()
 }
+
+// say makes errors speak: every error value the library hands out must survive being printed, unwrapped and compared
+// (fmt swallows a panic inside Error(); a caller that logs err.Error() does not).
+func say(errs ...error) {
+	for _, e := range errs {
+		for depth := 0; e != nil && depth < 50; depth++ {
+			_ = e.Error()
+			errors.Is(e, context.Canceled)
+			e = errors.Unwrap(e)
+		}
+	}
+}
+func e1[A any](_ A, err error)         { say(err) }
+func e2[A, B any](_ A, _ B, err error) { say(err) }
 
 func pemBlock(typ string, der []byte) []byte {
 	return pem.EncodeToMemory(&pem.Block{Type: typ, Bytes: der})
